@@ -80,7 +80,7 @@ def _new_recipe(rng, known_shapes):
                 "north360": rng.random() < 0.06},
         "dtype": rng.choice(["float64", "float64", "float64", "float32"]),
         "data": {"kind": rng.choice(["int_bumps", "int_bumps", "int_multi", "peaked", "random"]), "seed": rng.randrange(10**6),
-                 "zero_at": rng.choice([-1, -1, -1, 0, 1]), "nan_at": -1},
+                 "zero_at": rng.choice([-1, -1, -1, 0, 1]), "nan_at": rng.choice([-1] * 8 + [0, 1]), "nan_bins": rng.choice([0] * 9 + [3])},
         "spec_last": rng.random() < 0.85,
         "dir_first": rng.random() < 0.1,
         "std_attrs": rng.random() < 0.4,
@@ -194,6 +194,11 @@ def gen_plan(rng, tier="quick", prop="C18"):
         kind = rng.choice(["ds", "ds", "da"])
         backing = rng.choices(["numpy", "dask", "view"], [7, 2, 1] if prop == "C18" else [5, 3, 2])[0]
         st = {"op": "new", "slot": slot, "kind": kind, "recipe": recipe, "backing": backing}
+        has_ts = [k for k, _ in recipe["dims"]] in (["time", "site"],) and recipe["nd"] >= 2
+        if backing == "numpy" and has_ts and rng.random() < 0.35:
+            st["via"] = rng.choice(["ww3", "netcdf", "swan", "json"])
+            recipe["dir_first"] = False
+            recipe["spec_last"] = True
         if backing == "dask":
             recipe["spec_last"] = True  # blocks of the fresh object then have the layout of the history's blocks
             st["chunks"] = {k: rng.choice([1, 1, 2, -1]) for k, _ in recipe["dims"]}
@@ -218,9 +223,9 @@ def gen_plan(rng, tier="quick", prop="C18"):
     add_new(0)
     length = rng.randint(3, 12 if tier == "quick" else 24)
     if prop == "C18":
-        weights = {"call": 7, "bad": 1, "edit": 3.5, "native": 1.5, "new": 1.2, "reader": 1.0, "writer": 0.3, "readfile": 0.3, "construct": 0.6, "reconstruct": 0.25}
+        weights = {"call": 7, "bad": 1, "edit": 3.5, "native": 1.5, "new": 1.2, "reader": 1.0, "writer": 0.3, "readfile": 0.3, "construct": 0.6, "reconstruct": 0.25, "readsample": 1.2}
     else:
-        weights = {"call": 6, "bad": 1.5, "edit": 0.8, "native": 0.3, "new": 1.0, "reader": 2.0, "writer": 3.0, "readfile": 0.8, "construct": 1.0, "reconstruct": 0.3}
+        weights = {"call": 6, "bad": 1.5, "edit": 0.8, "native": 0.3, "new": 1.0, "reader": 2.0, "writer": 3.0, "readfile": 0.8, "construct": 1.0, "reconstruct": 0.3, "readsample": 0.3}
     for _ in range(length):
         kind = rng.choices(list(weights), list(weights.values()))[0]
         wsl = [s for s, m in metas.items() if m["kind"] in ("ds", "da")]
@@ -286,6 +291,13 @@ def gen_plan(rng, tier="quick", prop="C18"):
                 st["fault"] = {"kind": rng.choice(["eio", "eio", "enospc", "torn", "close_err", "short"]), "k": rng.choice([1, 1, 2, 3, 5, 8, 13, 21, 34, 55, 89])}
             steps.append(st)
             files[fname] = fmt
+        elif kind == "readsample":
+            if rng.random() < 0.45:
+                steps.append({"op": "readsample", "gen": "triaxys", "nf": rng.choice([28, 40, 56, 57, 58, 63, 111]), "df": 0.01,
+                              "ddir": rng.choice([30.0, 45.0, 90.0]), "seed": rng.randrange(50), "directional": rng.random() < 0.7})
+            else:
+                reader, fname, kw = rng.choice(SAMPLES)
+                steps.append({"op": "readsample", "reader": reader, "file": fname, "kw": kw})
         elif kind == "construct":
             nf = rng.randint(4, 9)
             nd = rng.choice([4, 6, 8, 12])
@@ -319,7 +331,7 @@ def shape(plan):
     for st in plan["steps"]:
         op = st["op"]
         if op == "new":
-            parts.append(f"new{st['slot']}:{st['kind']}:{st['backing']}:{D.describe(st['recipe'])}")
+            parts.append(f"new{st['slot']}:{st['kind']}:{st['backing']}{':via-' + st['via'] if st.get('via') else ''}:{D.describe(st['recipe'])}")
         elif op == "call":
             parts.append(f"call{st['slot']}:{O.op_label(st['call'])}:{st['call'].get('via')}{':sim' if st.get('sim') else ''}{':like' + str(st['call'].get('other')) if st['call']['m'] == 'interp_like' else ''}{':asda' if st['call'].get('as_da') else ''}")
         elif op == "bad":
@@ -328,6 +340,8 @@ def shape(plan):
             parts.append(f"edit{st['slot']}:{st['edit']['k']}:{st['edit'].get('how', st['edit'].get('f', ''))}")
         elif op == "native":
             parts.append(f"native:{st['shape']}:{st['ihmax']}{':flat' if st.get('flat') else ''}")
+        elif op == "readsample":
+            parts.append(f"readsample:{st.get('reader', 'triaxys-gen')}:{st.get('file', (st.get('nf'), st.get('ddir'), st.get('directional')))}")
         elif op == "construct":
             parts.append(f"construct:{st['freq_name']}:{len(st['fk']['freq'])}x{len(st['dk']['dir'])}:{st.get('defaults')}")
         elif op == "reconstruct":
@@ -390,10 +404,41 @@ def _make_view_backed(ds):
     return ds2, big
 
 
-def build_slot(st):
+def _via_roundtrip(ds, via, scratch):
+    """The object a user actually holds: what the library's reader returns for a file the library wrote."""
+    import wavespectra as ws
+
+    os.makedirs(scratch, exist_ok=True)
+    path = os.path.join(scratch, f"via_{via}_{abs(hash(str(ds.sizes))) % 10**6}")
+    if via == "ww3":
+        ds.spec.to_ww3(path + ".nc")
+        with ws.read_ww3(path + ".nc") as d:
+            out = d.load()
+    elif via == "netcdf":
+        ds.spec.to_netcdf(path + ".nc", ncformat="NETCDF3_64BIT", compress=False, packed=False)
+        with ws.read_netcdf(path + ".nc") as d:
+            out = d.load()
+    elif via == "swan":
+        ds.spec.to_swan(path + ".spec")
+        out = ws.read_swan(path + ".spec", as_site=True)
+    else:
+        ds.spec.to_json(path + ".json")
+        out = ws.read_json(path + ".json")
+    for v in ("wspd", "wdir", "dpt"):
+        if v not in out and v in ds and set(ds[v].dims) <= set(out.dims):
+            out[v] = (ds[v].dims, ds[v].values)
+    return out
+
+
+def build_slot(st, scratch=None):
     import dask  # noqa
 
     ds = D.make_dataset(st["recipe"])
+    if st.get("via") and scratch:
+        try:
+            ds = _via_roundtrip(ds, st["via"], scratch)
+        except Exception:
+            pass          # layout not writable in that format: keep the constructed dataset
     keep = None
     backing = st["backing"]
     src = None
@@ -677,6 +722,53 @@ BATTERY_2D = BATTERY_1D + [{"m": "split", "via": "da", "kw": {"dmin": 45.0, "dma
                            {"m": "sel", "via": "ds", "lons": [151.0, 151.0], "lats": [-29.0, -29.0], "kw": {"method": "nearest", "tolerance": 50.0}}]
 
 
+# -- reading the repository's sample files and generated instrument files ---------------------
+SAMPLES = [
+    ("read_swan", "swanfile.spec", {}), ("read_swan", "swanfile.spec", {"as_site": True}), ("read_swan", "swanhot.spec", {}),
+    ("read_triaxys", "triaxys.DIRSPEC", {}), ("read_triaxys", "triaxys.NONDIRSPEC", {}),
+    ("read_octopus", "octopusfile.oct", {}), ("read_json", "jsonfile.json", {}), ("read_funwave", "funwavefile.txt", {}),
+    ("read_ww3", "ww3file.nc", {}), ("read_era5", "era5file.nc", {}), ("read_ww3_station", "ww3station.spec", {}),
+    ("read_spotter", "spotter_20210929b.csv", {}), ("read_spotter", "spotter_20180214.json", {}),
+    ("read_obscape", "obscape/19900102_123456_Obscape2d_fine.csv", {}),
+    ("read_ndbc_ascii", "ndbc/41010w2019part.txt.gz", {}),
+]
+
+
+def write_triaxys(path, nf, df, ddir, seed, directional=True):
+    """A TRIAXYS report in the layout of tests/sample_files/triaxys.*SPEC (generated input for the reader)."""
+    rng = np.random.default_rng(seed)
+    nd = int(round(360 / ddir)) + 1
+    with open(path, "w") as f:
+        f.write("TRIAXYS BUOY DATA REPORT - VERIF01 - TAB00001 - 4857.6668S16631.6837W\nVERSION = WV (NDS)\n")
+        f.write(f"TYPE\t= {'DIRECTIONAL' if directional else 'NON-DIRECTIONAL'} SPECTRUM\nDATE    = 2018-01-31 21:00(UTC)\n")
+        f.write(f"NUMBER OF FREQUENCIES              = {nf:7d}\nNUMBER OF RESOLVABLE FREQUENCIES   = {nf - 6:7d}\n")
+        f.write(f"INITIAL FREQUENCY (Hz)             = {0.0:7.3f}\nFREQUENCY SPACING (Hz)             = {df:7.3f}\n")
+        f.write(f"RESOLVABLE FREQUENCY RANGE (Hz)    = {6 * df:7.3f}  TO {nf * df:6.3f}\n")
+        if directional:
+            f.write(f"NUMBER OF DIRECTIONS               = {nd:7d}\nDIRECTION SPACING (DEG)            = {int(ddir):7d}\nCOLUMNS = 0.00 TO 360.00 DEG\n")
+            f.write(f"ROWS\t= 0.00 TO {nf * df:6.2f} Hz\n")
+            for i in range(nf):
+                f.write(" " + " ".join(f"{v:.5E}" for v in rng.uniform(0, 1e-2, nd) * (i > 5)) + "\n")
+        else:
+            f.write("COLUMN 1 = FREQUENCY (Hz)\nCOLUMN 2 = SPECTRAL DENSITY (M2/HZ)\n")
+            for i in range(nf):
+                f.write(f" {i * df:.5E} {rng.uniform(0, 1) * (i > 5):.5E}\n")
+
+
+def read_sample(repo, st, fs_root):
+    import wavespectra as ws
+
+    if st.get("gen") == "triaxys":
+        path = os.path.join(fs_root, f"gen{st['nf']}_{int(st['ddir'])}_{st['seed']}.{'DIRSPEC' if st['directional'] else 'NONDIRSPEC'}")
+        if not os.path.exists(path):
+            os.makedirs(fs_root, exist_ok=True)
+            write_triaxys(path, st["nf"], st["df"], st["ddir"], st["seed"], st["directional"])
+        return ws.read_triaxys(path)
+    path = os.path.join(repo, "tests", "sample_files", st["file"])
+    out = getattr(ws, st["reader"])(path, **st.get("kw", {}))
+    return out.load() if hasattr(out, "load") else out
+
+
 # -- reference side ----------------------------------------------------------------------
 def ref_handler(req):
     """Runs in a grandchild of the pristine reference server: one call, once."""
@@ -686,6 +778,9 @@ def ref_handler(req):
     import warnings
 
     warnings.simplefilter("ignore")
+    from simkit.clock import pin_clock
+
+    pin_clock()
     kind = req["kind"]
     try:
         if kind == "call":
@@ -714,6 +809,8 @@ def ref_handler(req):
             res = call_reader(F.thaw(req["obj"]), req["fmt"], req["fn"])
         elif kind == "readfile":
             res = do_read(req["fmt"], req["path"])
+        elif kind == "readsample":
+            res = read_sample(req["repo"], req["st"], req["fs_root"])
         else:
             raise AssertionError(kind)
         return {"ok": cmp.canon(res)}
@@ -844,7 +941,7 @@ def execute(arg):
             op = st["op"]
             sid = st.get("slot")
             sim.count("steps")
-            if op not in ("new", "mknative", "native", "readfile", "construct") and sid not in slots:
+            if op not in ("new", "mknative", "native", "readfile", "construct", "readsample") and sid not in slots:
                 sim.count("steps_skipped")
                 continue
             # make sure argument objects exist before the snapshot (the caller owns them up front)
@@ -866,7 +963,7 @@ def execute(arg):
             before = snapshot_all() if prop == "C17" else None
             situation = "returned"
             if op == "new":
-                slots[sid] = build_slot(st)
+                slots[sid] = build_slot(st, scratch=os.path.join(root, "via"))
                 sim.count("slots_built")
                 continue
             if op == "mknative":
@@ -908,6 +1005,10 @@ def execute(arg):
                 elif op == "bad":
                     req = {"kind": "bad", "bad": st["bad"]}
                     res_c = cmp.canon(run_bad(sl.obj, sl.aux, st["bad"], extra=store.objs.setdefault(f"badargs{sid}", {})))
+                elif op == "readsample":
+                    req = {"kind": "readsample", "st": st, "repo": repo, "fs_root": os.path.join(root, "gen")}
+                    res_c = cmp.canon(read_sample(repo, st, os.path.join(root, "gen")))
+                    sim.count("sample_reads")
                 elif op == "construct":
                     req = {"kind": "construct", "st": st}
                     res_c = cmp.canon(run_construct(st, fk, dk))
@@ -1075,6 +1176,8 @@ def _step_label(st):
         return "edit:" + st["edit"]["k"]
     if op == "native":
         return "specpart.partition"
+    if op == "readsample":
+        return st.get("reader", "read_triaxys")
     if op == "construct":
         return "construct_partition"
     if op == "reconstruct":
